@@ -29,6 +29,7 @@ pub fn all() -> Vec<Scenario> {
         Scenario { name: "mapref_reobserved", props: &["C01", "C06"], run: mapref_reobserved },
         Scenario { name: "mapref_reobserved_same_round_write", props: &["C01"], run: mapref_reobserved_same_round_write },
         Scenario { name: "mapref_stacked_reobserved", props: &["C01", "C06"], run: mapref_stacked_reobserved },
+        Scenario { name: "height_panic_while_partly_linked", props: &["C19", "C04"], run: height_panic_while_partly_linked },
         Scenario { name: "sibling_chain_bind", props: &["C02", "C03", "C04"], run: sibling_chain_bind },
         Scenario { name: "dead_rhs_node_height_adjust", props: &["C04"], run: dead_rhs_node_height_adjust },
         Scenario { name: "second_observer_spurious_changed", props: &["C09"], run: second_observer_spurious_changed },
@@ -692,6 +693,45 @@ fn mapref_stacked_reobserved() -> Result<(), String> {
             o2.try_get_value()
         );
         drop(keep);
+    }
+    Ok(())
+}
+
+fn height_panic_while_partly_linked() -> Result<(), String> {
+    use std::panic::{catch_unwind, AssertUnwindSafe};
+    for too_tall_first in [true, false] {
+        let st = IncrState::new_with_height(6);
+        let v = st.var(0i64);
+        let w = st.var(0i64);
+        let mut tall = v.watch();
+        for _ in 0..9 {
+            tall = tall.map(|x| x + 1);
+        }
+        let short = w.map(|x| x + 1);
+        // the height panic is raised while the two-input node has only one of its inputs linked
+        let top = if too_tall_first { tall.map2(&short, |a, b| a + b) } else { short.map2(&tall, |a, b| a + b) };
+        let o = top.observe();
+        let r = catch_unwind(AssertUnwindSafe(|| st.stabilise()));
+        let msg = match r {
+            Ok(()) => return Err("a graph of height 11 was accepted under limit 6".into()),
+            Err(e) => crate::panic_message(e),
+        };
+        check!(msg.to_lowercase().contains("height"), "the panic does not name the height limit: {msg}");
+        let d = catch_unwind(AssertUnwindSafe(move || {
+            drop(o);
+            drop(top);
+            drop(tall);
+            drop(short);
+            drop(v);
+            drop(w);
+            drop(st);
+        }));
+        if let Err(e) = d {
+            return Err(format!(
+                "dropping the handles after the height panic (too tall input first: {too_tall_first}) panicked again: {}",
+                crate::panic_message(e)
+            ));
+        }
     }
     Ok(())
 }
